@@ -1182,6 +1182,37 @@ def _sizeb(g, scale):
         g.emit("opt %s" % a)
         g.emit("size %s" % a)
         g.count("sizeb:many-short-runs-union")
+    # an in-place intersection (bitmap receiver; bitmap / array / run argument; the many-way forms) whose result holds EXACTLY 4096 /
+    # 4095 / 4097 values, followed by single removals and insertions: the chunk must end up in its smallest form
+    for target in (4096, 4095, 4097):
+        for argkind in ("B", "A", "R"):
+            x, y = g.fresh("t4"), g.fresh("t4")
+            g.emit("new %s" % x)
+            g.emit("addstride %s %d 2 6000" % (x, 5 * CH))                     # evens 0..11998: bitmap container
+            g.emit("new %s" % y)
+            if argkind == "B":
+                g.emit("addstride %s %d 1 %d" % (y, 5 * CH, 2 * target - 1))    # covers exactly `target` evens
+            elif argkind == "R":
+                g.emit("addr %s %d %d" % (y, 5 * CH, 5 * CH + 2 * target - 1)); g.emit("opt %s" % y)
+            else:
+                g.emit("addstride %s %d 2 %d" % (y, 5 * CH, min(target, 4096)))
+                if target > 4096:
+                    continue
+            for form in ("iand", "fastand3"):
+                z = g.fresh("t4")
+                if form == "iand":
+                    g.emit("clone %s %s" % (z, x)); g.emit("iand %s %s" % (z, y))
+                else:
+                    g.emit("fastand %s %s %s %s" % (z, x, x, y))
+                g.emit("size %s" % z); g.emit("wf %s" % z)
+                for i in range(5):
+                    g.emit("rem %s %d" % (z, 5 * CH + 2 * i))
+                g.emit("size %s" % z); g.emit("wf %s" % z)
+                for i in range(1000):
+                    g.emit("crem %s %d" % (z, 5 * CH + 100 + 2 * i))
+                g.emit("size %s" % z); g.emit("wf %s" % z)
+                g.emit("add %s %d" % (z, 5 * CH + 1)); g.emit("size %s" % z)
+            g.count("sizeb:inplace-and-to-%d" % target)
     for n in (2046, 2047, 2048, 2049, 2050, 2053, 2055, 2056, 2057):
         a = g.fresh()
         g.emit("new %s" % a)
